@@ -1,10 +1,11 @@
 ------------------------------ MODULE MCXzDiff ------------------------------
 (* C20 (M): XzDiff => XzDiffContract over option words x operand lists x operand states *)
 EXTENDS XzDiffContract, TLC
-CONSTANT Strict
+CONSTANTS Strict, Big
 
 OptSeqs == { <<>>, <<"-q">>, <<"-u", "--brief">>, <<"--">>, <<"-s", "--">>, <<"--help">>, <<"-q", "--version">>, <<"--he">> }
-Names1  == { "@1.xz", "@1", "@1.gz", "@1.tbz2", "@1.txz", "@1-lzma", "@1.lz", "@1.tgz", "@1.tlz", "@1.txt", "-", "@1.Z", "@1.tbz" }
+Names1  == { "@1.xz", "@1", "@1.gz", "@1.tbz2", "@1.txz", "@1-lzma", "@1.txt", "-" }
+           \cup (IF Big THEN { "@1.lz", "@1.tgz", "@1.tlz", "@1.Z", "@1.tbz", "@1.lzo", "@1.tzst", "@1.lz4", "@1-z" } ELSE {})
 Names2  == { "@2.xz", "@2", "@2.bz2", "-", "@2.tlz" }
 OpLists == IF Strict THEN {<<"@1.xz", "-">>, <<"@1", "-">>, <<"-", "@2.xz">>} ELSE {<<>>} \cup {<<a>> : a \in Names1} \cup {<<a, b>> : a \in Names1, b \in Names2} \cup {<<"@1.xz", "@2", "@3">>}
 Conds   == {"ok", "plain", "missing", "corrupt", "late", "pipe", "kill"}
